@@ -367,8 +367,11 @@ func (fx *FnCtx) Finalize() {
 	for _, d := range axTexts {
 		pre.WriteString(d + "\n")
 	}
-	for _, d := range unicodeFacts(fx.usedSpecs) {
-		pre.WriteString(d + "\n")
+	if !fx.pkg.Flags["rt"] {
+		// ground Unicode facts are only needed on the generator side (the runtime treats case folding abstractly)
+		for _, d := range unicodeFacts(fx.usedSpecs) {
+			pre.WriteString(d + "\n")
+		}
 	}
 	prelude := pre.String()
 	for _, q := range fx.queries {
